@@ -87,13 +87,18 @@ def _resolved_type_argument(
 ) -> Any:
     # replace type variables with their current values, also those nested within the argument
     if isinstance(argument, TypeVar):
-        return type_parameters.get(
+        resolved: Any = type_parameters.get(
             argument,  # prefer the variable itself, names may repeat between generic types
             type_parameters.get(
                 argument.__name__,
                 argument.__bound__ or Any,
             ),
         )
+        if isinstance(resolved, TypeVar) and resolved is not argument:
+            # handed on to a type variable of a subclass, resolve that one
+            return _resolved_type_argument(resolved, type_parameters=type_parameters)
+
+        return resolved
 
     if isinstance(argument, type):
         return argument  # not specialized generic class is a finished type
